@@ -111,6 +111,9 @@ class FortranRegularExpressions:
         r"[\+\-]?(\b\d+\.?\d*|\.\d+)(_\w+|d[\+\-]?\d+|e[\+\-]?\d+(_\w+)?)?(?!\w)",
         I,
     )
+    KIND_SUFFIX: Pattern = compile(
+        r"(?<![\w.$])(?:\d+\.?\d*|\.\d+)(?:[ed][+-]?\d+)?_([a-z]\w*)", I
+    )
     LOGICAL: Pattern = compile(r"\.true\.|\.false\.", I)
     SUB_PAREN: Pattern = compile(r"\([\w, ]*\)", I)
     # KIND_SPEC_MATCH: Pattern = compile(r"\([\w, =*]*\)", I)
